@@ -48,15 +48,14 @@ CfgRoutes(k) == CASE Cfgs[k].genmod -> {"raw", "to", "cgsmks", "eq", "shown", "t
                   [] Cfgs[k].kind = "top" -> {"raw", "eq"}
                   [] Cfgs[k].kind = "codereg" -> IF CodeInTable THEN {"raw", "to", "shown", "tosys", "idem"} ELSE {}
                   [] OTHER -> AllRoutes
-Cases ==
-  \* (candidate sets are kept small: the routes and guises a configuration goes through are selected before the records are built)
-  UNION {{[kind |-> "guise", a |-> n, g |-> gk[1], cfg |-> gk[2], route |-> rt, cfg2 |-> 0] : n \in NameIdx, rt \in RoutesOf(gk[1]) \cap CfgRoutes(gk[2])}
-         : gk \in {x \in Guises \X SelCfg : x[1] \in GuisesOf(x[2])}}
-  \cup {[kind |-> "rel", a |-> r, g |-> g, cfg |-> k, route |-> "rel", cfg2 |-> 0] : r \in RelIdx, g \in Guises \cup {"mix1", "mix2"}, k \in SelCfg}
-  \cup {[kind |-> "unit", a |-> n, g |-> "plain", cfg |-> k, route |-> "unit", cfg2 |-> 0] : n \in UnitNames, k \in SelCfg}
-  \cup {[kind |-> "unit", a |-> n, g |-> g, cfg |-> k, route |-> rt, cfg2 |-> 0] : n \in UnitNames, g \in Guises, k \in {x \in SelCfg : ~Cfgs[x].genmod}, rt \in {"quot", "quotinv"}}
-  \cup {[kind |-> "pair", a |-> n, g |-> "plain", cfg |-> p[1], route |-> f, cfg2 |-> p[2]] : n \in NameIdx, p \in PairSel, f \in PairForms}
-  \cup {[kind |-> "lit", a |-> q, g |-> "plain", cfg |-> 1, route |-> "lit", cfg2 |-> 0] : q \in QIdx}
+\* The candidate cases, one set per kind (never united: TLC's union of large un-normalised sets is quadratic); the routes and
+\* guises a configuration goes through are selected before the records are built
+GuiseCasesOf(g, k) == {[kind |-> "guise", a |-> n, g |-> g, cfg |-> k, route |-> rt, cfg2 |-> 0] : n \in NameIdx, rt \in RoutesOf(g) \cap CfgRoutes(k)}
+RelCases == {[kind |-> "rel", a |-> r, g |-> g, cfg |-> k, route |-> "rel", cfg2 |-> 0] : r \in RelIdx, g \in Guises \cup {"mix1", "mix2"}, k \in SelCfg}
+UnitCases == {[kind |-> "unit", a |-> n, g |-> "plain", cfg |-> k, route |-> "unit", cfg2 |-> 0] : n \in UnitNames, k \in SelCfg}
+QuotCases == {[kind |-> "unit", a |-> n, g |-> g, cfg |-> k, route |-> rt, cfg2 |-> 0] : n \in UnitNames, g \in Guises, k \in {x \in SelCfg : ~Cfgs[x].genmod}, rt \in {"quot", "quotinv"}}
+PairCasesOf(p) == {[kind |-> "pair", a |-> n, g |-> "plain", cfg |-> p[1], route |-> f, cfg2 |-> p[2]] : n \in NameIdx, f \in PairForms}
+LitCases == {[kind |-> "lit", a |-> q, g |-> "plain", cfg |-> 1, route |-> "lit", cfg2 |-> 0] : q \in QIdx}
 \* the TLC-generated edited registries (thorough tier) are compared through a representative subset of the routes
 Wanted(k) == CASE k.kind = "guise" -> k.route \in RoutesOf(k.g) \cap CfgRoutes(k.cfg) /\ (Bare(k.a) => (k.g = "plain" /\ k.route # "defbase")) /\ k.g \in GuisesOf(k.cfg)
                [] k.kind = "rel" -> k.g \in RelGuises(k.a) /\ k.g \in RelGuisesOf(k.cfg) /\ Cfgs[k.cfg].kind # "codereg"
@@ -66,7 +65,13 @@ Wanted(k) == CASE k.kind = "guise" -> k.route \in RoutesOf(k.g) \cap CfgRoutes(k
                [] OTHER -> TRUE
 
 Init == c = NoCase
-Next == c = NoCase /\ \E k \in Cases : Wanted(k) /\ c' = k
+Next == /\ c = NoCase
+        /\ \/ \E g \in Guises, cf \in SelCfg : g \in GuisesOf(cf) /\ \E k \in GuiseCasesOf(g, cf) : Wanted(k) /\ c' = k
+           \/ \E k \in RelCases : Wanted(k) /\ c' = k
+           \/ \E k \in UnitCases : Wanted(k) /\ c' = k
+           \/ \E k \in QuotCases : Wanted(k) /\ c' = k
+           \/ \E p \in PairSel : \E k \in PairCasesOf(p) : Wanted(k) /\ c' = k
+           \/ \E k \in LitCases : Wanted(k) /\ c' = k
 Spec == Init /\ [][Next]_c
 
 \* the transition's prediction for a guise case (exported for the evidence; Trace_C15 recomputes it)
